@@ -808,6 +808,26 @@ class RefProp(Prop):
                     cases.append(w)
         return cases
 
+    def oracle(self, c, i):
+        ref = c.get("ref")
+        if ref is None:
+            return None
+        if ref["status"] != i["status"]:
+            if i["status"] in ("CRASH", "TIMEOUT"):
+                return None   # C09's business / no observation within the time bound (C14's business)
+            return ("refsem_status", "reference semantics says %s (%s), implementation %s %s" % (ref["status"], ref.get("why", ""), i["status"], i.get("err", "")))
+        if ref["status"] == "OK":
+            if out_text(i) != ref["out"]:
+                return ("refsem_output", "output %r, reference semantics gives %r" % (out_text(i)[:8], ref["out"][:8]))
+            got = {dec(k): v for k, v in i["vars"]}
+            want = {k: common.val_rec(v) for k, v in ref["vars"].items()}
+            if got != want:
+                return ("refsem_vars", "final variables %r, reference %r" % (got, want))
+        if i.get("prints") is not None:
+            if [dec(p[0]) for p in i["prints"]] != ref["prints"]:
+                return ("refsem_prints", "prints differ from the reference execution order")
+        return None
+
 
 def weave(lines, unit, r):
     """the same program cut across files (compared with the model, no reference): a run of whole sibling
@@ -839,26 +859,6 @@ def weave(lines, unit, r):
     sub = [l[len(unit) * lvl:] for l in lines[s0:e]]
     main = lines[:s0] + [unit * lvl + imp + " sub"] + lines[e:]
     return {"kind": "comp", "files": {"main.txt": "\n".join(main), "sub.txt": "\n".join(sub)}, "main": "main.txt", "opts": {}}
-
-    def oracle(self, c, i):
-        ref = c.get("ref")
-        if ref is None:
-            return None
-        if ref["status"] != i["status"]:
-            if i["status"] in ("CRASH", "TIMEOUT"):
-                return None   # C09's business / no observation within the time bound (C14's business)
-            return ("refsem_status", "reference semantics says %s (%s), implementation %s %s" % (ref["status"], ref.get("why", ""), i["status"], i.get("err", "")))
-        if ref["status"] == "OK":
-            if out_text(i) != ref["out"]:
-                return ("refsem_output", "output %r, reference semantics gives %r" % (out_text(i)[:8], ref["out"][:8]))
-            got = {dec(k): v for k, v in i["vars"]}
-            want = {k: common.val_rec(v) for k, v in ref["vars"].items()}
-            if got != want:
-                return ("refsem_vars", "final variables %r, reference %r" % (got, want))
-        if i.get("prints") is not None:
-            if [dec(p[0]) for p in i["prints"]] != ref["prints"]:
-                return ("refsem_prints", "prints differ from the reference execution order")
-        return None
 
 
 class C05(RefProp):
